@@ -347,17 +347,18 @@ Proof.
   intros D. unfold inst_okb, entry_okb. rewrite D. rewrite andb_true_iff. tauto.
 Qed.
 
-Lemma hash_set_typed st i d f v vd i' :
-  re_defn (i_fac i) = Some d -> hash_set st i (KSym f) v = (vd, i') ->
+Lemma hash_set_typed st i d k v vd i' :
+  re_defn (i_fac i) = Some d -> hash_set st i k v = (vd, i') ->
   value_clean st v = true -> inst_okb st i = true ->
   i_tname i' = i_tname i /\ i_fac i' = i_fac i /\ inst_okb st i' = true /\ (vd <> VOk -> i' = i).
 Proof.
   intros D H C O. unfold hash_set, type_check_field in H.
+  destruct k as [f|n|n]; try (rewrite D in H; inversion H; subst; repeat split; auto; fail).
   rewrite (adopt_typed _ _ _ D) in H. rewrite D in H.
   destruct (lookup_field d f) as [dt|] eqn:L.
-  - destruct (check_value st dt v) eqn:CV; inversion H; subst; clear H;
-      try (repeat split; auto; congruence);
+  - destruct (check_value st dt v) eqn:CV; try (inversion H; subst; clear H; repeat split; auto; congruence);
       try (exfalso; eapply check_value_notsym; eauto; fail).
+    inversion H; subst; clear H.
     simpl. repeat split; auto; try congruence.
     apply (inst_okb_split st i d D) in O as [W O].
     apply (inst_okb_split st _ d); [simpl; auto|]. split; auto. simpl.
@@ -368,7 +369,8 @@ Qed.
 
 Lemma hash_set_verdict st i k v vd i' : hash_set st i k v = (vd, i') -> vd <> VNotSym.
 Proof.
-  unfold hash_set. destruct (type_check_field st i k v) as [x y]. destruct x; intros H; inversion H; congruence.
+  unfold hash_set. destruct (type_check_field st i k v) as [x y].
+  destruct x; [| |destruct (re_defn (i_fac y))]; intros H; inversion H; congruence.
 Qed.
 
 (* ---------- MakeHash ---------- *)
@@ -392,7 +394,7 @@ Lemma hash_set_fields st i k v vd i' : hash_set st i k v = (vd, i') ->
 Proof.
   unfold hash_set. destruct (type_check_field st i k v) as [x y] eqn:T.
   destruct (tcf_fields _ _ _ _ _ _ T) as [F N].
-  destruct x; intros H; inversion H; subst; simpl; split; auto; intros k0 v0 I;
+  destruct x; [| |destruct (re_defn (i_fac y))]; intros H; inversion H; subst; simpl; split; auto; intros k0 v0 I;
     try (rewrite F in I; auto; fail); apply in_fset in I; rewrite F in I; auto.
 Qed.
 
@@ -442,9 +444,12 @@ Lemma hash_set_fac_ok st i k v vd i' : reg_okb (st_reg st) = true -> entry_okb (
 Proof.
   intros R O. unfold hash_set, type_check_field.
   pose proof (adopt_fac_ok st i R O) as A.
-  destruct k; try (intros H; inversion H; subst; simpl; auto; fail).
+  destruct k; try (destruct (re_defn (i_fac i)); intros H; inversion H; subst; simpl; auto; fail).
   destruct (re_defn (i_fac (adopt st i))) as [d|].
-  - destruct (lookup_field d f) as [dt|]; [destruct (check_value st dt v)|]; intros H; inversion H; subst; simpl; auto.
+  - destruct (lookup_field d f) as [dt|].
+    + destruct (check_value st dt v) eqn:CV; try (intros H; inversion H; subst; simpl; auto; fail).
+      exfalso; eapply check_value_notsym; eauto.
+    + intros H; inversion H; subst; simpl; auto.
   - intros H; inversion H; subst; simpl; auto.
 Qed.
 Lemma hash_set_all_fac_ok st : forall args i vd i', reg_okb (st_reg st) = true -> entry_okb (i_fac i) = true ->
@@ -468,7 +473,7 @@ Proof.
     { unfold adopt. rewrite D. destruct (alookup (i_tname i) (st_reg st)) as [e|] eqn:E; auto.
       rewrite (R e eq_refl). auto. }
     assert (HS : exists y, hash_set st i k v = (VOk, y) /\ i_tname y = i_tname i /\ i_fac y = i_fac i).
-    { unfold hash_set, type_check_field. destruct k; try (eexists; split; [reflexivity | simpl; auto]).
+    { unfold hash_set, type_check_field. destruct k; try (rewrite D; eexists; split; [reflexivity | simpl; auto]).
       rewrite A. rewrite D. eexists; split; [reflexivity | simpl; auto]. }
     destruct HS as [y [HS [N F]]]. rewrite HS in H.
     apply (IH y vd i'); [intros e0 E0; rewrite N in E0; auto | congruence | exact H].
@@ -582,13 +587,12 @@ Proof.
     destruct (alookup id (st_store st)) eqn:F; try discriminate.
     apply good_put_fresh; auto. eapply (make_hash_ok st); eauto. apply forallb_values_clean; auto.
   - (* Write *)
-    simpl in C. apply andb_prop in C as [C CT]. apply andb_prop in C as [CK CV].
+    simpl in C. apply andb_prop in C as [CV CT].
     destruct (negb (route_key_ok r k)); [apply good_refl; auto|].
     destruct (negb (value_ok st v)); [apply good_refl; auto|].
     unfold target_typed in CT.
     destruct (alookup id (st_store st)) as [i|] eqn:A; [|apply good_refl; auto].
     destruct (hash_set st i k v) as [vd i'] eqn:HS. simpl.
-    destruct k as [f| |]; try discriminate.
     unfold typed_inst in CT. destruct (re_defn (i_fac i)) as [d|] eqn:D; try discriminate.
     destruct (hash_set_typed _ _ _ _ _ _ _ D HS CV (sinvb_lookup _ _ _ I A)) as [T [F [O _]]].
     eapply good_put_shape; eauto. congruence.
@@ -727,13 +731,15 @@ Corollary reachable_inv_init h : clean_run init_state h = true -> invb (run init
 Proof. apply reachable_inv. reflexivity. Qed.
 
 (* ---------- a rejected operation changes no instance ---------- *)
-Lemma hash_set_rejected st i d f v vd i' :
-  re_defn (i_fac i) = Some d -> hash_set st i (KSym f) v = (vd, i') -> vd <> VOk -> i' = i.
+Lemma hash_set_rejected st i d k v vd i' :
+  re_defn (i_fac i) = Some d -> hash_set st i k v = (vd, i') -> vd <> VOk -> i' = i.
 Proof.
   intros D H N. unfold hash_set, type_check_field in H.
+  destruct k as [f|n|n]; try (rewrite D in H; inversion H; subst; auto; fail).
   rewrite (adopt_typed _ _ _ D) in H. rewrite D in H.
   destruct (lookup_field d f) as [dt|].
-  - destruct (check_value st dt v); inversion H; subst; congruence.
+  - destruct (check_value st dt v) eqn:CV; try (inversion H; subst; congruence).
+    exfalso; eapply check_value_notsym; eauto.
   - inversion H; subst; auto.
 Qed.
 
@@ -748,13 +754,12 @@ Proof.
     destruct (negb (forallb _ args)); [inversion E; subst; auto|].
     destruct (make_hash st s args) as [[vd i] reg].
     destruct vd; inversion E; subst; auto; congruence.
-  - simpl in C. apply andb_prop in C as [C CT]. apply andb_prop in C as [CK CV].
+  - simpl in C. apply andb_prop in C as [CV CT].
     destruct (negb (route_key_ok r k)); [inversion E; subst; auto|].
     destruct (negb (value_ok st v)); [inversion E; subst; auto|].
     unfold target_typed in CT.
     destruct (alookup id (st_store st)) as [i|] eqn:A; [|inversion E; subst; auto].
     destruct (hash_set st i k v) as [vd i'] eqn:HS. inversion E; subst. simpl.
-    destruct k as [f| |]; try discriminate.
     unfold typed_inst in CT. destruct (re_defn (i_fac i)) as [d|] eqn:D; try discriminate.
     assert (NV : vd <> VOk). { intros ->. apply N. destruct r; reflexivity. }
     rewrite (hash_set_rejected _ _ _ _ _ _ _ D HS NV). apply aset_same; auto.
@@ -809,12 +814,13 @@ Proof.
   destruct (hash_set st i k v) as [vd i'] eqn:HS. inversion H; subst; clear H. simpl.
   exists i, i'. rewrite alookup_aset_same.
   assert (VD : vd = VOk).
-  { destruct vd; auto; destruct r; simpl in *; try discriminate.
-    all: exfalso; eapply hash_set_verdict; eauto. }
+  { destruct vd; auto; simpl in *; try discriminate.
+    exfalso; eapply hash_set_verdict; eauto. }
   subst vd. unfold hash_set in HS.
   destruct (type_check_field st i k v) as [x y] eqn:T.
   destruct (tcf_fields _ _ _ _ _ _ T) as [F N].
-  assert (Y : i' = set_fields y (fset k v (i_fields y))) by (destruct x; inversion HS; auto).
+  assert (Y : i' = set_fields y (fset k v (i_fields y)))
+    by (destruct x; [| |destruct (re_defn (i_fac y))]; inversion HS; auto).
   subst i'. simpl. rewrite F. repeat split; auto.
   - apply flookup_fset_same.
   - intros k' NE. apply flookup_fset_other; auto.
